@@ -361,7 +361,7 @@ fn run(c: &Case, out: &mut Out) {
                 out.obs(&[]);
             }
             "recluster" => {
-                // probe op (not generated): flips the affinity mode under live flows
+                // cluster update that flips the affinity mode under live flows
                 with_port = a[0].n() == 1;
                 let ok = worker.as_mut().map_or(false, |w| {
                     w.req(RequestType::AddCluster(Cluster {
@@ -379,7 +379,8 @@ fn run(c: &Case, out: &mut Out) {
                         ..Default::default()
                     }))
                 });
-                live.clear();
+                // flows admitted under the previous mode stay live under their own key: they keep
+                // their slot, are unreachable under the new mode and reachable again after a flip back
                 out.obs(&[ts("recluster"), tbool(ok)]);
             }
             _ => {
